@@ -73,7 +73,11 @@ namespace detail
 		GLM_FUNC_QUALIFIER static genType call(genType Source, genType Multiple)
 		{
 			if(Source > genType(0))
-				return Source + (Multiple - std::fmod(Source, Multiple));
+			{
+				// An exact multiple is its own ceiling
+				genType const Remainder = std::fmod(Source, Multiple);
+				return Remainder == genType(0) ? Source : Source + (Multiple - Remainder);
+			}
 			else
 				return Source + std::fmod(-Source, Multiple);
 		}
@@ -119,7 +123,11 @@ namespace detail
 			if(Source >= genType(0))
 				return Source - std::fmod(Source, Multiple);
 			else
-				return Source - std::fmod(Source, Multiple) - Multiple;
+			{
+				// An exact multiple is its own floor
+				genType const Remainder = std::fmod(Source, Multiple);
+				return Remainder == genType(0) ? Source : Source - Remainder - Multiple;
+			}
 		}
 	};
 
